@@ -3,6 +3,8 @@
 package gonnx
 
 import (
+	"fmt"
+
 	"github.com/advancedclimatesystems/gonnx/internal/zzverif"
 	"github.com/advancedclimatesystems/gonnx/onnx"
 )
@@ -70,6 +72,9 @@ func H_C17(v *zzverif.T) {
 		in := Tensors{}
 		for _, d := range ds {
 			in[d.name] = d.zzTensor() // private to this Run
+			if v.Has("lazyT") && v.CStr("lazyT") == d.name {
+				in[d.name] = d.zzLazyT()
+			}
 		}
 		var rerr error
 		p = v.Try(func() { _, rerr = m.Run(in) })
@@ -86,6 +91,19 @@ func H_C17(v *zzverif.T) {
 		for _, spec := range v.CStrs("inputsBad") {
 			d := zzParseSpec(v, spec, "bad_")
 			in[d.name] = d.zzTensor()
+		}
+		p = v.Try(func() { _, _ = m.Run(in) })
+		v.Assert("C17.no-panic", !p)
+		v.AssertNoWrites("C17.a-failing-Run-writes-nothing-shared")
+	}
+	// a Run refused for the element type of a tensor (the right shape, booleans where numbers are expected)
+	if len(inA) > 0 && inA[0].kind == "f32" {
+		in := Tensors{}
+		for i, d := range inA {
+			in[d.name] = d.zzTensor()
+			if i == 0 {
+				in[d.name] = zzverif.NewTensor(make([]bool, zzverif.Prod(d.shape)), d.shape)
+			}
 		}
 		p = v.Try(func() { _, _ = m.Run(in) })
 		v.Assert("C17.no-panic", !p)
@@ -123,25 +141,97 @@ func H_C17_race(v *zzverif.T) {
 	if err != nil {
 		return
 	}
-	done := make(chan bool)
+	// what each goroutine's inputs give on a model nobody else uses
+	alone, err := NewModel(mp)
+	if err != nil {
+		return
+	}
 	const G = 8
-	for k := 0; k < G; k++ {
-		var ds []zzTData
+	type work struct {
+		ds   []zzTData
+		want Tensors
+		werr error
+	}
+	ws := make([]work, G)
+	for k := range ws {
 		for _, spec := range specs {
-			ds = append(ds, zzParseSpec(v, spec, "a_"))
+			ws[k].ds = append(ws[k].ds, zzParseSpec(v, spec, "a_"))
 		}
-		go func() {
-			for i := 0; i < 50; i++ {
-				in := Tensors{}
-				for _, d := range ds {
-					in[d.name] = d.zzTensor()
-				}
-				_, _ = m.Run(in)
-			}
-			done <- true
+		in := Tensors{}
+		for _, d := range ws[k].ds {
+			in[d.name] = d.zzTensor()
+		}
+		func() {
+			defer func() { _ = recover() }()
+			ws[k].want, ws[k].werr = alone.Run(in)
 		}()
 	}
+	same := func(a, b Tensors) bool {
+		if len(a) != len(b) {
+			return false
+		}
+		for name, ta := range a {
+			tb, ok := b[name]
+			if !ok || (ta == nil) != (tb == nil) {
+				return false
+			}
+			if ta == nil {
+				continue
+			}
+			if !ta.Shape().Eq(tb.Shape()) || ta.Dtype() != tb.Dtype() {
+				return false
+			}
+			if fmt.Sprint(ta.Data()) != fmt.Sprint(tb.Data()) {
+				return false
+			}
+		}
+		return true
+	}
+	done := make(chan bool)
+	bad := make(chan string, G+1)
 	for k := 0; k < G; k++ {
+		w := ws[k]
+		go func() {
+			defer func() {
+				if r := recover(); r != nil {
+					bad <- fmt.Sprint("panic: ", r)
+				}
+				done <- true
+			}()
+			for i := 0; i < 50; i++ {
+				in := Tensors{}
+				for _, d := range w.ds {
+					in[d.name] = d.zzTensor()
+				}
+				got, gerr := m.Run(in)
+				if (gerr != nil) != (w.werr != nil) || (gerr == nil && !same(got, w.want)) {
+					bad <- "a concurrent Run differs from the same Run on a model of its own"
+					return
+				}
+			}
+		}()
+	}
+	// one more goroutine keeps making requests that are refused (missing input, wrong element type)
+	go func() {
+		defer func() { _ = recover(); done <- true }()
+		for i := 0; i < 50; i++ {
+			_, _ = m.Run(Tensors{})
+			in := Tensors{}
+			for j, d := range ws[0].ds {
+				in[d.name] = d.zzTensor()
+				if j == 0 {
+					in[d.name] = zzverif.NewTensor(make([]bool, zzverif.Prod(d.shape)), d.shape)
+				}
+			}
+			_, _ = m.Run(in)
+		}
+	}()
+	for k := 0; k < G+1; k++ {
 		<-done
+	}
+	select {
+	case msg := <-bad:
+		v.Assert("C17.concurrent-runs-compute-what-they-compute-alone: "+msg, false)
+	default:
 	}
 }
